@@ -160,12 +160,77 @@ def f64ExactDecimal (b : UInt64) : Option String :=
       else if fl.isEmpty then some (sign ++ ips)
       else some (sign ++ ips ++ "." ++ String.ofList fl)
 
+/-- number of decimal digits of a positive natural number (0 for 0) -/
+def decLen (n : Nat) : Nat := if n = 0 then 0 else (natDigits n).length
+
+/-- `d * 10^(-s)` in positional notation (no exponent), `d > 0`; trailing zeros of the fraction
+    are removed first. -/
+def positional : Nat → Nat → Nat → String
+  | 0, d, s => natDigits d ++ String.ofList (List.replicate 0 '0') ++ (if s = 0 then "" else "")
+  | fuel + 1, d, s =>
+    if s > 0 && d % 10 = 0 && d > 0 then positional fuel (d / 10) (s - 1)
+    else if s = 0 then natDigits d
+    else
+      let ds := natDigits d
+      if ds.length > s then
+        String.ofList (ds.toList.take (ds.length - s)) ++ "." ++ String.ofList (ds.toList.drop (ds.length - s))
+      else "0." ++ String.ofList (List.replicate (s - ds.length) '0') ++ ds
+
+/-- The shortest decimal that reads back as the same float, the closest one to the true value
+    among the shortest (what Rust's `{}` prints, in positional notation): for p = 1, 2, … digits
+    the two p-digit neighbours of the exact value are tried; the first p at which one of them
+    round-trips (under the correctly rounded reading `ratToF64Abs`) is taken.  `num/den` is the
+    exact positive value, `t` the decimal exponent of its leading digit. -/
+def shortestFrom (bits : UInt64) (num den : Nat) (t : Int) : Nat → Nat → Option String
+  | 0, _ => none
+  | fuel + 1, p =>
+    -- scaled value x = num/den * 10^sh with sh = p - 1 - t
+    let sh : Int := (p : Int) - 1 - t
+    let (n, d) := if sh ≥ 0 then (num * 10 ^ sh.toNat, den) else (num, den * 10 ^ (-sh).toNat)
+    let lo := n / d
+    let hi := lo + 1
+    let back (c : Nat) : Bool :=
+      c > 0 && (if sh ≥ 0 then ratToF64Abs c (10 ^ sh.toNat) else ratToF64Abs (c * 10 ^ (-sh).toNat) 1) == bits
+    let okLo := back lo
+    let okHi := back hi
+    let pick : Option Nat :=
+      if okLo && okHi then
+        -- the closer one; an exact tie goes up (as Rust's `{}` does: 2^-25 prints …95313)
+        (if 2 * (n % d) < d then some lo else some hi)
+      else if okLo then some lo else if okHi then some hi else none
+    match pick with
+    | some c =>
+      if sh ≥ 0 then some (positional 400 c sh.toNat)
+      else some (natDigits (c * 10 ^ (-sh).toNat))
+    | none => shortestFrom bits num den t fuel (p + 1)
+
+/-- decimal exponent of the leading digit of the positive rational `num/den` -/
+def decExp (num den : Nat) : Int :=
+  if num ≥ den then ((decLen (num / den) : Nat) : Int) - 1
+  else
+    -- smallest k ≥ 1 with num * 10^k ≥ den
+    let rec go : Nat → Nat → Int
+      | 0, k => -(k : Int)
+      | f + 1, k => if num * 10 ^ k ≥ den then -(k : Int) else go f (k + 1)
+    go 400 1
+
+/-- Shortest round-trip printing of a finite non-zero float (without sign). -/
+def f64ShortestAbs (b : UInt64) : Option String :=
+  match f64Decode b with
+  | none => none
+  | some (_, m, e) =>
+    if m = 0 then none else
+    let (num, den) := if e ≥ 0 then (m * pow2 e.toNat, 1) else (m, pow2 (-e).toNat)
+    shortestFrom (b &&& ~~~signBit) num den (decExp num den) 20 1
+
 /-- Rust `format!("{}", f)` for floats the model can print (see `f64ExactDecimal`), plus the
     non-finite cases. -/
 def f64Display (b : UInt64) : Option String :=
   if f64IsNaN b then some "NaN"
   else if f64IsInf b then some (if f64IsNeg b then "-inf" else "inf")
-  else f64ExactDecimal b
+  else match f64ExactDecimal b with
+    | some s => some s
+    | none => (f64ShortestAbs b).map fun s => (if f64IsNeg b then "-" else "") ++ s
 
 /-- Is the finite float integral (`fract() == 0.0`)? -/
 def f64IsIntegral (b : UInt64) : Bool :=
@@ -173,11 +238,18 @@ def f64IsIntegral (b : UInt64) : Bool :=
   | none => false
   | some (_, m, e) => m = 0 || e ≥ 0 || m % pow2 (-e).toNat = 0
 
-/-- `Display for TulispValue::Float` after the fix: integral finite floats get ".0". -/
-def f64DisplayLisp (b : UInt64) : Option String :=
-  match f64Display b with
+/-- The exact integer value of an integral finite float, in decimal (with sign; "-0" for -0.0). -/
+def f64ExactInt (b : UInt64) : Option String :=
+  match f64Decode b with
   | none => none
-  | some s => if f64IsIntegral b then some (s ++ ".0") else some s
+  | some (neg, m, e) =>
+    let v := if e ≥ 0 then m * pow2 e.toNat else m / pow2 (-e).toNat
+    some ((if neg then "-" else "") ++ natDigits v)
+
+/-- `Display for TulispValue::Float` after the fix: integral finite floats are written with
+    `{:.1}` — ALL digits of the integer value, then ".0" —, the others with `{}`. -/
+def f64DisplayLisp (b : UInt64) : Option String :=
+  if f64IsIntegral b then (f64ExactInt b).map (· ++ ".0") else f64Display b
 
 /-! ## the tower -/
 
